@@ -206,12 +206,46 @@ def tamper_at_endpoint(v, tier, rnd):
     return n
 
 
+def keyless_emission(v):
+    """The emission clause where it is easiest to break: an endpoint that has NO keys yet (an initiator waiting for the IKE_SA_INIT response) is handed messages
+    of the later exchange types - bare headers and cleartext payload lists, requests and responses.  Whatever it emits in reaction is an IKE_SA_INIT message
+    or carries everything inside an encrypted payload; an IKE_AUTH / CREATE_CHILD_SA / INFORMATIONAL message in the clear is never emitted."""
+    n = 0
+    lists = ([], [{'t': W.NOTIFY, 'proto': 0, 'spi': b'', 'ntype': 24, 'data': b''}], [{'t': W.DELETE, 'proto': 1, 'spis': []}], [{'t': W.IDI, 'id_type': 2, 'data': b'x.example'}])
+    for xchg in (35, 36, 37, 99):
+        for resp in (False, True):
+            for mid in (0, 1):
+                for pl in lists:
+                    w = wd.World(seed=common.SEED)
+                    try:
+                        req = w.acquire('A')
+                        a = w.sas('A')[0]
+                        for spi_r in (b'\0' * 8, b'\x52' * 8):
+                            forged = W.enc_message({'spi_i': bytes(a.my_spi), 'spi_r': spi_r, 'xchg': xchg, 'response': resp, 'initiator': False, 'mid': mid}, pl)
+                            try:
+                                out = w.dispatch('A', forged, 'B')
+                            except wd.Escape:
+                                out = None          # (whether the loop survives is C17's business)
+                            n += 1
+                            if out is None:
+                                continue
+                            h = W.dec_header(bytes(out))
+                            if h['xchg'] != W.IKE_SA_INIT and h['first'] != W.SK:
+                                v.violation(f'an endpoint without keys answers a cleartext exchange-type-{xchg} {"response" if resp else "request"} (Message ID {mid}) with an '
+                                            f'UNPROTECTED message of exchange type {h["xchg"]} ({len(out)} octets)', {'forged': forged.hex(), 'emitted': bytes(out).hex()},
+                                            signature={'component': 'clear:keyless', 'xchg': xchg, 'response': resp})
+                    finally:
+                        w.close()
+    return n
+
+
 def run(tier, replay=None):
     v = common.Verdict('C07', tier, 'exploration')
     rnd = random.Random(common.SEED)
     n_frame, samples = framing(v, tier)
     n_tamper, names = tamper(v, tier, rnd)
     n_endpoint = tamper_at_endpoint(v, tier, rnd)
+    v.coverage['keyless_emission_cases'] = keyless_emission(v)
     # "everything after IKE_SA_INIT travels inside the encrypted payload": monitored on every datagram of the Ike.tla replays
     from checks import ikeprop
     ikeprop.run(v, ['init'] if tier == 'quick' else ['init', 'estab'], limit=800 if tier == 'quick' else 6000)
